@@ -976,8 +976,63 @@ def falsy_outcomes(ctx, n):
                         'raised' if err is not None else 'returned'), family='falsy-outcomes')
 
 
+def watched_tasks(ctx, n):
+    """directed family (direct API): a task handle is itself an awaitable and may be the PAYLOAD of another task
+    (`scope.do(task)`: a child that merely waits for a sibling; also in another scope as a time-out guard).  Cancelling or
+    closing the watcher is cancelling a child: it never aborts the task it watched, its siblings or the parent scope"""
+    import usim
+    from usim import time, TaskState
+    for _ in range(n):
+        how = ctx.rng.choice(['cancel', 'until-scope', 'volatile-scope'])
+        d = ctx.rng.choice([4, 6])
+        case = {'watched_task': dict(watcher_ends_by=how, worker_takes=d)}
+        log = []
+
+        async def worker():
+            await (time + d)
+            log.append(('worker finished', time.now))
+            return 'result'
+
+        async def main():
+            async with usim.Scope() as scope:
+                w = scope.do(worker())
+                if how == 'cancel':
+                    watcher = scope.do(w)
+                    await (time + 1)
+                    watcher.cancel()
+                elif how == 'until-scope':
+                    async with usim.until(time == 1) as guard:
+                        guard.do(w)
+                        await (time + 50)
+                else:
+                    async with usim.Scope() as inner:
+                        inner.do(w, volatile=True)
+                        await (time + 1)
+                log.append(('watcher gone', time.now, w.status))
+                try:
+                    r = await w
+                    log.append(('worker result', r, time.now))
+                except BaseException as e:   # noqa
+                    log.append(('awaiting the worker raised', type(e).__name__, time.now))
+                    if not isinstance(e, Exception):
+                        raise
+            log.append(('scope left', time.now))
+        try:
+            watch.run(main())
+        except BaseException as e:   # noqa
+            ctx.fail(case, 'run() raised %r after %r' % (e, log), family='watched-tasks')
+            continue
+        ctx.count(case, nontrivial=True)
+        ctx.bump('family:watched-tasks')
+        want = [('watcher gone', 1, TaskState.RUNNING), ('worker finished', d), ('worker result', 'result', d), ('scope left', d)]
+        if log != want:
+            ctx.fail(case, 'a task watched by another task whose watcher ends by %r at time 1: observed %r, expected %r'
+                     % (how, log, want), family='watched-tasks')
+
+
 def run(ctx):
     _run_vertical(ctx)
+    watched_tasks(ctx, ctx.n(12, 100))
     falsy_outcomes(ctx, ctx.n(20, 200))
     self_cancel(ctx, ctx.n(6, 60))
     cancel_nested(ctx, ctx.n(30, 400))
